@@ -33,6 +33,7 @@ Section Hist.
   Variable fl : flags.
 
   Definition step_model (st : pwstate) (o : op) (c : credential) : pwstate * bool :=
+    if is_restart o then (st, true) else   (* startup reloads what every served operation saved *)
     match handle T fl (route_template RDevice) (op_meth o) (cred_level g st c) true with
     | Ran _ => (apply_op o st, true)
     | _ => (st, false)
@@ -41,7 +42,7 @@ Section Hist.
   Fixpoint hist_model_ok (st : pwstate) (steps : list hstep) (probes : list hprobe) : bool :=
     match steps with
     | (o, c, ob) :: r =>
-        resp_agrees (handle T fl (route_template RDevice) (op_meth o) (cred_level g st c) true) ob
+        (is_restart o || resp_agrees (handle T fl (route_template RDevice) (op_meth o) (cred_level g st c) true) ob)
         && hist_model_ok (fst (step_model st o c)) r probes
     | [] => forallb (fun p : hprobe => let '(t, m, c, ob) := p in
                                        resp_agrees (handle T fl t m (cred_level g st c) true) ob) probes
@@ -61,10 +62,10 @@ Section Hist.
   (* a credential operation takes effect in the model exactly when the specification serves it *)
   Lemma step_model_spec : forall st o c, step_model st o c = step_spec st o c.
   Proof.
-    intros st o c. unfold step_model, step_spec. rewrite cred_level_ok.
+    intros st o c. unfold step_model, step_spec. destruct (is_restart o) eqn:Hr; [reflexivity|]. rewrite cred_level_ok.
     generalize (cred_level_nonneg st c). generalize (cred_level grant_spec st c). intros l Hl.
     assert (Hd : exists h f rq, dispatch T fl (route_template RDevice) (op_meth o) = DServe h f rq)
-      by (destruct o; assumption).
+      by (destruct o; try assumption; discriminate Hr).
     destruct Hd as (h & f & rq & Hd).
     assert (Hwf : well_formed T (op_meth o) true = true) by reflexivity.
     destruct (enforced T Hserve Hdeny Hok fl RDevice (op_meth o) l true h f rq Hd Hl Hwf) as [Hiff _].
@@ -78,10 +79,14 @@ Section Hist.
   Proof. induction h as [|[o c] r IH]; intros st; simpl; [reflexivity|]. rewrite step_model_spec. apply IH. Qed.
 
   Theorem no_credential_change_below_admin : forall st o c,
-    cred_level grant_spec st c < LV_ADMIN -> step_model st o c = (st, false).
+    cred_level grant_spec st c < LV_ADMIN -> fst (step_model st o c) = st.
   Proof.
-    intros st o c Hlt. rewrite step_model_spec. unfold step_spec.
+    intros st o c Hlt. rewrite step_model_spec. unfold step_spec. destruct (is_restart o); [reflexivity|].
     assert (Hr : required_spec RDevice (op_meth o) = LV_ADMIN) by (destruct o; reflexivity).
     rewrite Hr. destruct (Z.leb_spec LV_ADMIN (cred_level grant_spec st c)); [lia | reflexivity].
   Qed.
+
+  (* a restart changes no credential *)
+  Theorem restart_keeps_state : forall st c, fst (step_model st OpRestart c) = st.
+  Proof. reflexivity. Qed.
 End Hist.
